@@ -732,15 +732,21 @@ let pred_c09 steps impl =
    leaves the whole observation block unchanged. Known finding: the two-call
    helpers delete_user / delete_role apply their first removal before the second
    adapter call fails. *)
-let pred_c10 steps impl =
+let pred_c10 ?(mouts = None) steps impl =
   match impl_results impl with
   | Some outs ->
     let sts = Array.of_list (steps_list steps) and os = Array.of_list outs in
     if Array.length sts <> Array.length os then "0" else begin
       let res = ref "1" in
       let stl = Array.to_list sts in
+      (* the adapter's answer is not always visible in the call's own result (an implementation may swallow a refusal and
+         report success): the MODEL's result for the same call on the same scripted adapter says whether the adapter refused
+         or failed it - then, too, nothing may have changed *)
+      let model_says_rejected i = match mouts with
+        | Some m when Array.length m = Array.length os -> m.(i) = "EA" || m.(i) = "0"
+        | _ -> false in
       Array.iteri (fun i st ->
-          if not (is_query st) && (os.(i) = "EA" || os.(i) = "0") then begin
+          if not (is_query st) && (os.(i) = "EA" || os.(i) = "0" || model_says_rejected i) then begin
             let n = block_before stl i in
             if n > 0 && i + n < Array.length sts && sub_list stl (i - n) n = sub_list stl (i + 1) n then
               if sub_list outs (i - n) n <> sub_list outs (i + 1) n then begin
@@ -813,6 +819,10 @@ let pred_c08 spec steps impl =
                  else if sec = "p" && last = "deny" then
                    (if is_add then (if not shrinks then ok := false) else (if not grows then ok := false))
                  else ()
+               | [("AM" | "RM") as k; sec; _; _] when sec = "g" || eff = "AO" ->
+                 (* a batch of role links / of rules under allow-override: an accepted batch addition only grows the
+                    granted set, an accepted batch removal only shrinks it *)
+                 if eff = "AO" then (if k = "AM" then (if not grows then ok := false) else (if not shrinks then ok := false))
                | _ -> ())
             end
           end) sts;
@@ -1267,7 +1277,10 @@ let pred_eng line spec ad flags steps impl =
   match cvprop with
   | "C05" -> b01 (pred_c05 steps impl)
   | "C09" -> b01 (pred_c09 steps impl)
-  | "C10" -> pred_c10 steps impl
+  | "C10" ->
+    let mouts = (try (match impl_results (run_eng_line line spec ad flags steps) with
+        | Some l -> Some (Array.of_list l) | None -> None) with _ -> None) in
+    pred_c10 ~mouts steps impl
   | "C06" ->
     (* total (no panic / hang), arity errors reported, and a grant only when the reference semantics grant *)
     (match impl_results impl with
